@@ -212,7 +212,7 @@ class Msg:
     def case(self):
         return {'head': self.head, 'framed': self.framed, 'surplus': self.surplus, 'payload': self.payload,
                 'method': self.method, 'version': self.version, 'code': self.code, 'framing': self.framing,
-                'wf': self.wf, 'coding': self.coding, 'conn_close': self.conn_close}
+                'wf': self.wf, 'coding': self.coding, 'conn_close': self.conn_close, 'tags': list(self.tags or [])}
 
     @staticmethod
     def from_case(c):
@@ -220,7 +220,7 @@ class Msg:
         for k in ('head', 'framed', 'surplus', 'payload', 'method', 'version', 'code', 'framing', 'wf', 'coding',
                   'conn_close'):
             setattr(m, k, c[k])
-        m.tags = []
+        m.tags = list(c.get('tags') or [])
         return m
 
 
@@ -680,6 +680,18 @@ def install_recorder_fault(recorder, fault, cur):
         recorder.write_record = write_record
 
 
+class DualStackResolver:
+    """a host with an A and an AAAA record"""
+
+    @asyncio.coroutine
+    def resolve(self, host):
+        import socket
+        from wpull.network.dns import ResolveResult, AddressInfo
+        return ResolveResult([AddressInfo('10.0.0.1', socket.AF_INET, None, None),
+                              AddressInfo('fd00::1', socket.AF_INET6, None, None)])
+        yield  # pragma: no cover
+
+
 def build_app_clients(argv):
     """The HTTP client and web client as the APPLICATION wires them: argv -> AppArgumentParser ->
     Builder -> NetworkSetupTask + ClientSetupTask (wpull/application/tasks).  Only the resolver of
@@ -728,6 +740,10 @@ def real_session_sequence(exchanges, recorder_params=None, keep_alive=True, igno
         if len(set(paths)) == len(paths):
             shared['paths'] = {p: k for k, p in enumerate(paths)}
         net.listen('10.0.0.1', 80, lambda: ReactiveServer(shared))
+        if wiring.get('dual_stack'):
+            # a dual-stack host whose IPv4 address refuses: the IPv6 (secondary) connection wins the race
+            net.listen('fd00::1', 80, lambda: ReactiveServer(shared))
+            net.refuse.add(('10.0.0.1', 80))
         calls = []
         o_read, o_readline = wc.Connection.read, wc.BaseConnection.readline
 
@@ -766,7 +782,7 @@ def real_session_sequence(exchanges, recorder_params=None, keep_alive=True, igno
                 if app is not None:
                     client, web_client = app[0], app[1]
                 else:
-                    pool = ConnectionPool(resolver=fakenet.FakeResolver())
+                    pool = ConnectionPool(resolver=DualStackResolver() if wiring.get('dual_stack') else fakenet.FakeResolver())
                     client = Client(connection_pool=pool,
                                     stream_factory=functools.partial(Stream, keep_alive=keep_alive,
                                                                      ignore_length=ignore_length))
@@ -887,6 +903,13 @@ def real_session_sequence(exchanges, recorder_params=None, keep_alive=True, igno
                         x.closed, x.consumed = None, None
                     results.append({'conn': conn_index, 'x': x, 'requests': [g[1] for g in got],
                                     'request_obj_bytes': None})
+                    if e.get('unsolicited') and got:
+                        # bytes nobody asked for arrive on the idle connection (e.g. a 408 notice)
+                        fc = net.conns[got[0][0]]
+                        if not fc.server_closed and not fc.client_closed:
+                            fc.send(e['unsolicited'])
+                            for _ in range(3):
+                                await asyncio.sleep(0)
                     if x.outcome == 'stalled':
                         break
                 if recorder is not None:
